@@ -9,7 +9,7 @@ HERE = os.path.dirname(os.path.dirname(os.path.abspath(__file__)))
 CHECKS = {
     # id: (technique, level text, level note, design ref)
     "C01": (
-        "Hypothesis-generated layouts/data/shifts/rules vs independent per-point reference model (bitwise)",
+        "Hypothesis-generated layouts/data/shifts/rules (+ exhaustive operator x shift x rule x rule-source table) vs independent per-point reference model (bitwise)",
         "Generated-input search (thousands of layouts x shifts x rules x spellings per run) against a reference "
         "model that is derived from the geometry of positions, not from xgcm's pad widths; finds any deviation "
         "reachable with <=3 axes and <=9 cells; cannot prove absence.",
@@ -17,7 +17,7 @@ CHECKS = {
         "DESIGN.md 4/C01",
     ),
     "C02": (
-        "Hypothesis-generated constructor/call spellings x widths vs rule resolver + index-level padding model",
+        "Hypothesis-generated constructor/call spellings x widths (+ exhaustive position x rule x rule-source x width table) vs rule resolver + index-level padding model",
         "Generated-input search over the product of constructor spellings, call spellings, asymmetric widths and layouts; "
         "oracle is a resolver written from the statement and an index-level padding model; also the re-spelling relation "
         "and a Grid.interp cross-check. Cannot prove absence.",
@@ -72,7 +72,7 @@ CHECKS = {
         "DESIGN.md 4/C08",
     ),
     "C09": (
-        "Hypothesis-generated layouts/shifts/rules vs geometric running-sum model + inverse/commutation/cumint relations",
+        "Hypothesis-generated layouts/shifts/rules (+ exhaustive shift x rule x rule-source x mode table) vs geometric running-sum model + inverse/commutation/cumint relations",
         "Generated-input search against a running-sum model stated on coordinates (sum of inputs before the target point) "
         "and four metamorphic relations through the public API.",
         "Trusted: NumPy cumsum in the model; relations that re-associate sums use rtol 1e-9 (exact for integer data).",
